@@ -4,8 +4,9 @@
 // disk store and the reference disagree. The Coq model is evaluated on the same cases by props/C17/run.py.
 //
 // Usage: c17 gen <nsmall> <nsize> <ncount>      generated cases (corpus/witness cases always run first)
-//        c17 replay <file.json>                 re-run the ops of one case
-//        c17 consts                             print the constants the generator assumes (cross-check only)
+//
+//	c17 replay <file.json>                 re-run the ops of one case
+//	c17 consts                             print the constants the generator assumes (cross-check only)
 package main
 
 import (
@@ -73,15 +74,16 @@ type Out struct {
 }
 
 type Case struct {
-	Case    int      `json:"case"`
-	Kind    string   `json:"kind"`
-	Ops     []Op     `json:"ops"`
-	Outs    []Out    `json:"outs"`
-	Oracle  []string `json:"oracle"`  // direct-oracle failures
-	OrKinds []string `json:"orkinds"` // one machine-readable kind per failure
-	Clob    []uint64 `json:"clob"`    // first indexes of files hit by an earlier-file conflict at slot > 0
-	Unrep   []int    `json:"unrep"`   // ops (fsave) whose injected zero-fill write error Save did not report
-	Stats   map[string]int `json:"stats"`
+	Case     int            `json:"case"`
+	Kind     string         `json:"kind"`
+	Ops      []Op           `json:"ops"`
+	Outs     []Out          `json:"outs"`
+	Oracle   []string       `json:"oracle"`   // direct-oracle failures
+	OrKinds  []string       `json:"orkinds"`  // one machine-readable kind per failure
+	Clob     []uint64       `json:"clob"`     // first indexes of files hit by an earlier-file conflict at slot > 0
+	Unrep    []int          `json:"unrep"`    // ops (fsave) whose injected zero-fill write error Save did not report
+	UnrepDel []int          `json:"unrepdel"` // ops (fsave) whose injected file-removal error Save did not report
+	Stats    map[string]int `json:"stats"`
 }
 
 // ---- payloads ----
@@ -511,7 +513,7 @@ func (w *world) close() {
 var caseNo int
 
 func runCase(kind string, src source) *Case {
-	c := &Case{Case: caseNo, Kind: kind, Ops: []Op{}, Oracle: []string{}, OrKinds: []string{}, Clob: []uint64{}, Unrep: []int{}, Stats: map[string]int{}}
+	c := &Case{Case: caseNo, Kind: kind, Ops: []Op{}, Oracle: []string{}, OrKinds: []string{}, Clob: []uint64{}, Unrep: []int{}, UnrepDel: []int{}, Stats: map[string]int{}}
 	caseNo++
 	dir := filepath.Join(workDir(), fmt.Sprintf("c%d", c.Case))
 	_ = os.RemoveAll(dir)
